@@ -3,14 +3,46 @@ SPEC = {
     'harness': 'hC10',
     'coq_dir': 'C10',
     'claimed': False,
-    'theorems': ['C10_table_refines_map_refuted', 'C10_refuted_del_add', 'C10_refuted_del_replace', 'C10_refuted_update_del', 'C10_refuted_sep_collision',
-                 'C10_table_refines_map_partial', 'C10_every_save_partial'],
+    'theorems': ['C10_table_refines_map_refuted', 'C10_refuted_del_add', 'C10_refuted_del_replace',
+                 'C10_refuted_update_del', 'C10_refuted_sep_collision',
+                 'C10_table_refines_map_partial', 'C10_every_save_partial', 'C10_queries_partial'],
     'allowed_axioms': [],
-    'shard': 40,
-    'rule': 'TODO',
-    'trusted_base': [],
-    'assumptions': [],
-    'manifest': {'level_text': 'TODO', 'level_note': 'TODO',
+    'shard': 30,
+    'rule': 'operation histories (Add/Replace/Update/Del/DelRow/Save) on a real table.Table '
+            '(Prefix p, Name t, Primary Cointoken, Index [To, Note] over types.AssetsTransfer) on goleveldb (2/3) and memdb (1/3): '
+            '4-6 primary keys, 1-4 saves, per window 1-6 operations on 3/4 of the keys, interleaved; new rows draw To from '
+            '{a,b,ab,"",a1} and Note from {x,y,xy,""}; modifications change only the payload, one or both indexed fields, or nothing; '
+            '4% of Updates carry a mismatching primary key. Streams: 5 deterministic witnesses x 2 backends (the four findings + one safe '
+            'history); guarded (generator steers inside safe_words: nothing after the Del of a saved row, no Del of a saved row with a '
+            'pending index change); unrestricted (same alphabet, leaves the guard 40% of the times it could); sep-safe-words and '
+            'unrestricted-sep (primary keys / index values containing "-", steered towards the colliding pair). '
+            'Observables: error class of every call; after every Save the full KV dump under the table prefix (values decoded with '
+            'table.DecodeRow + types.Decode) and 9 ListIndex queries (primary, To, Note; full listings with and without prefix in both '
+            'directions, pages with count 1-3 and/or a start key). check_case recomputes safe_words in Coq: inside the guard every '
+            'divergence is a violation; outside only the first divergence is classified against known_findings/C10.json. '
+            'non-trivial = some save left a non-empty store and some query returned rows; distinct = distinct Gallina case terms',
+    'trusted_base': ['Row.Encode/DecodeRow and the protobuf encoding of the row are not modelled: a stored value is the abstract term '
+                     'VRow primary data / VPrim primary; the harness decodes the stored bytes with the real DecodeRow + types.Decode',
+                     'the KV backend is modelled as an ordered map (Lib.OMap): Get, batch Set/Delete in order (util.SaveKVList; DelDupKey = last '
+                     'write wins), ListHelper.List = values under a prefix strictly beyond the start key in iteration order, skipping empty values; '
+                     'tied to goleveldb/memdb by the differential check only (iterator properties are C06/C07)',
+                     'the Gallina model coq/theories/C10/Model.v (row cache with the pointer structure of rows/rowmap as positions, Add/Replace/Update/'
+                     'Del/DelRow, Save/saveRow/addRow/delRow/updateRow/getModify, GetData, ListIndex/listPrimary) is tied to table.go/query.go by the '
+                     'differential check only; Join tables, auto-increment primary keys and mergeCache are not modelled',
+                     'Coq kernel + vm_compute (refutation witnesses, Examples, case evaluation)'],
+    'assumptions': ['C10_table_refines_map_partial / C10_every_save_partial hold under the boolean guard safe_words: per primary key, after Del/DelRow of a '
+                    'row that was present at the last Save no further operation on that key until the next Save; no Del of a saved row whose pending '
+                    'Update/Replace changed an indexed field; indexed fields without the "-" byte. Everything else (Add, Add.Update*, Update*, Replace '
+                    'chains, Add.Del, Add.Del.Add, Update.Del with unchanged indexed fields, failing calls, any interleaving over keys, any number of '
+                    'saves) is inside the guard',
+                    'C10_queries_partial covers full listings (no start key, count <= 0) as sets, for non-empty primary keys and separator-free '
+                    'prefixes; order, pages and start keys are covered by the correspondence check only',
+                    'outside the guard the four open findings of known_findings/C10.json apply (each has a _refuted theorem with the witness the '
+                    'harness reproduces on the Go code)'],
+    'manifest': {'level_text': 'partial: unbounded refinement proof (table.go cache + Save = abstract map, exact KV contents, full listings) under the '
+                               'guard safe_words; the full statement is refuted by four defects reproduced on the Go code (open findings)',
+                 'level_note': 'value encoding and the KV backend are abstract (ordered map); the model is tied to table.go/query.go by the '
+                               'differential check over generated histories on goleveldb and memdb',
                  'technique': 'Coq proof (invariant by induction over op histories) + in-kernel correspondence check'},
     'harness_timeout': {'quick': 300, 'thorough': 3000},
 }
